@@ -132,9 +132,9 @@ var propTable = map[string]propInfo{
 			"under the function's stated usage preconditions (labelled [C14]: E-msg-wf message well-formedness, E-ready-contract, E-app-conf, A-arith); callers discharge " +
 			"callee preconditions. What is proved is: no assertion fires in these functions when the listed preconditions hold; that contract-respecting usage implies " +
 			"the preconditions at the API boundary is decided for part of the boundary: newRaft/NewRawNode establish the node invariant from a valid Config and a consistent " +
-			"Storage; RawNode.Step rejects local-only message types from the network and responses from unknown peers without touching the node; for Campaign, Propose, ReadIndex, " +
+			"Storage; RawNode.Step rejects local-only message types from the network and responses from unknown peers without touching the node; for Campaign, Propose, ProposeConfChange, ReadIndex, " +
 			"TransferLeader, ReportUnreachable, ReportSnapshot and ForgetLeader the well-formedness of the stepped message is proved, not assumed. Tick, Advance, " +
-			"ProposeConfChange, ApplyConfChange (RawNode wrapper) and Bootstrap are not under contract. Found and fixed F-1 (MemoryStorage.Term).",
+			"ApplyConfChange (RawNode wrapper) and Bootstrap are not under contract. Found and fixed F-1 (MemoryStorage.Term).",
 	},
 	"C16": {
 		Level: "proof",
